@@ -5,7 +5,7 @@ from . import common as C
 
 TARGETS = {
     "asan": ["drv_sorted", "drv_pipeline", "drv_threads", "drv_lifecycle"],
-    "plain": ["drv_rotation"],
+    "plain": ["drv_rotation", "drv_fatal"],
 }
 
 
